@@ -317,7 +317,7 @@ def _s3_repeatable_grouping(program, res):
                                 f"PolarsModel.{mname} sorts with `{unparse(c)[:70]}` (maintain_order left False): rows that tie on the sort columns come back in another "
                                 f"order on every evaluation — order_rows(['c'], limit=1) over eight rows with equal c returned eight different rows in 40 evaluations", c)
     if ns < 2:
-        raise AnalysisError("C19-S3: the sorts of _order_rows_step / _extend_step were not found")
+        res.abstain("C19-S3", "stability of the Polars sorts", f"only {ns} frame sort(s) found in _order_rows_step / _extend_step (another ordering mechanism is not decided here)")
     # joins: Polars keeps the left frame's order for left / inner joins; a full join appends the right-only rows in hash order unless
     # maintain_order is given.  The join whose `how` is not a literal "left"/"inner" can be the full join.
     jm = cls.methods.get("_natural_join_step")
